@@ -2333,7 +2333,7 @@ def o2_documents(ctx, classes, small=False):
 # ====================================================================================== O3: with and without C-extensions
 CHILD = r'''
 import sys, os, json, random, pathlib, tempfile
-sys.path.insert(0, os.path.join(os.environ["VERIF_REPO_"], "src")); sys.path.insert(0, "/verif/harness"); sys.path.insert(0, "/verif/harness/props")
+sys.path.insert(0, os.path.join(os.environ["VERIF_REPO_"], "src")); sys.path.insert(0, os.environ["VERIF_HARNESS_"]); sys.path.insert(0, os.path.join(os.environ["VERIF_HARNESS_"], "props"))
 import ezdxf, c01
 from ezdxf import options
 
@@ -2384,6 +2384,7 @@ def o3_cext(ctx):
     repo = os.environ.get("VERIF_REPO", "/repo")
     env = dict(os.environ)
     env["VERIF_REPO_"] = repo
+    env["VERIF_HARNESS_"] = os.path.dirname(os.path.dirname(os.path.abspath(__file__)))
     env["EZDXF_DISABLE_C_EXT"] = "1"
     env["C01_SCRATCH"] = str(ctx.scratch)
     r = subprocess.run([sys.executable, "-c", CHILD, str(ctx.seed)], env=env, capture_output=True, text=True, timeout=1500)
